@@ -156,7 +156,7 @@ pub fn run(args: &Args) {
                     End::Panic(m) => {
                         // after a handled error in the middle of a statement the VM's stacks are corrupt (known finding)
                         let on_error = src.contains("ON ERROR");
-                        sum.violation(ImplViolation { key: format!("panic{}:{}", if on_error { "-with-on-error" } else { "" }, panic_key(m)), input: format!("{} [stdin {:?}]", src.replace('\n', " | "), String::from_utf8_lossy(&stdin)), expected: "a BASIC-level outcome".into(), observed: m.clone() });
+                        sum.violation(ImplViolation { key: format!("panic{}:{}{}", if on_error { "-with-on-error" } else { "" }, panic_key(m), if on_error { format!(":{}", last_error_kind(&src, &r)) } else { String::new() }), input: format!("{} [stdin {:?}]", src.replace('\n', " | "), String::from_utf8_lossy(&stdin)), expected: "a BASIC-level outcome".into(), observed: m.clone() });
                     }
                     End::Ok => sum.count("repertoire_ok"),
                     End::Err(c, ..) => sum.count(&format!("repertoire_error_{}", c)),
@@ -217,7 +217,7 @@ pub fn run(args: &Args) {
             sum.count("procedural_accepted");
             if let End::Panic(m) = &r.end {
                 let on_error = src.contains("ON ERROR");
-                sum.violation(ImplViolation { key: format!("panic{}:{}", if on_error { "-with-on-error" } else { "" }, panic_key(m)), input: src.replace('\n', " | ").chars().take(600).collect(), expected: "a BASIC-level outcome".into(), observed: m.clone() });
+                sum.violation(ImplViolation { key: format!("panic{}:{}{}", if on_error { "-with-on-error" } else { "" }, panic_key(m), if on_error { format!(":{}", last_error_kind(&src, &r)) } else { String::new() }), input: src.replace('\n', " | ").chars().take(600).collect(), expected: "a BASIC-level outcome".into(), observed: m.clone() });
             }
         }
     }
